@@ -12,12 +12,16 @@ def level_plan(tier):
         return [
             (1, 'full', 'full', lambda i, n: 'full', (False, True)),
             (2, 'mid', 'mid', lambda i, n: 'core', (False,)),
+            (1, 'full', 'full', lambda i, n: 'mid', ('decoy',)),
         ]
     return [
         (1, 'full', 'full', lambda i, n: 'full', (False, True)),
         (2, 'full', 'full', lambda i, n: 'core', (False, True)),
         (2, 'mid', 'mid', lambda i, n: 'mid', (False,)),
         (3, 'core', 'core', lambda i, n: 'core', (False,)),
+        (1, 'full', 'full', lambda i, n: 'full', ('decoy',)),
+        (2, 'mid', 'mid', lambda i, n: 'core', ('decoy',)),
+        (3, 'core', 'core', lambda i, n: 'core', ('decoy',)),
     ]
 
 
@@ -30,6 +34,10 @@ def programs(tier, part, nparts, plan=None):
             if idx % nparts != part:
                 continue
             for child_first in cf:
+                if child_first == 'decoy':
+                    for module in g.label(shape, levels, decoy=True):
+                        yield module.describe(), g.emit(module)
+                    continue
                 for module in g.label(shape, levels, child_first=child_first):
                     if child_first and not module.child_first:
                         continue
